@@ -368,9 +368,13 @@ func runFuzz(exp g9cl.Exports, c fuzzCase) (kind, verdict, detail string) {
 		if r.ParseErr != "" {
 			kind = "parse+err"
 		}
+		strict := strings.Contains(c.ID, "pos:") // position witnesses: an error without a position is outside the files
 		for i, p := range r.ErrPos {
 			if why := checkPos(p, c.Files); why != "" {
 				return kind, "bad-position", why + " in: " + r.Errs[i]
+			}
+			if p == "" && strict {
+				return kind, "bad-position", "error without a position inside the files: " + r.Errs[i]
 			}
 		}
 		return
